@@ -231,6 +231,7 @@ SPEC = [
          selfr={"choices": ("choices", L(L("A")))}, children=("discmulti_children", "choices")),
     dict(name="binary_correct", src=("models.py", "BinaryVariable.correct"), params={"value": L("raw")}, ret=L("coord"), uses_dispatch=True,
          selfr={"n_vars": ("n_vars", "int")}, children=("binary_children", "n_vars")),
+    dict(name="calculate_fitness", src=("helpers.py", "calculate_fitness"), params={"value": "num", "task_type": "dir"}, ret="num", float_ops=True),
     dict(name="task_init", src=("models.py", "Task.__init__"), kwargs={"variables": L("vd"), "space_dimension": "int"}, params={}, ret=T(L("vd"), "int"),
          ret_fields=["variables", "space_dimension"], uses_dispatch=True, after_init_ok=["self._EPS = np.finfo(float).eps"]),
     dict(name="task_get_variables", src=("models.py", "Task.get_variables"), params={}, ret=L("var"), selfr={"variables": ("variables", L("vd"))}, uses_dispatch=True),
@@ -667,6 +668,9 @@ class Fn:
             y = self.coerce(y, yt, "R", b)
             return {"<": f"(ar.lt {atom(x)} {atom(y)})", "≤": f"(ar.le {atom(x)} {atom(y)})", ">": f"(ar.lt {atom(y)} {atom(x)})",
                     "≥": f"(ar.le {atom(y)} {atom(x)})"}.get(sym) or self.err(n, "equality on rates"), "bool"
+        if self.spec.get("float_ops") and {xt, yt} == {"num", "intlit"}:
+            x, xt = (x, xt) if xt == "num" else (f"(intNum {x})", "num")
+            y, yt = (y, yt) if yt == "num" else (f"(intNum {y})", "num")
         if xt == "num" and yt == "num":
             return {"<": f"(Num.lt {atom(x)} {atom(y)})", "≤": f"(Num.le {atom(x)} {atom(y)})", ">": f"(Num.lt {atom(y)} {atom(x)})",
                     "≥": f"(Num.le {atom(y)} {atom(x)})"}.get(sym) or self.err(n, "equality on doubles"), "bool"
@@ -676,6 +680,10 @@ class Fn:
         x, xt = self.E(n.left, env)
         y, yt = self.E(n.right, env)
         ints = ("int", "nat", "intlit")
+        if self.spec.get("float_ops") and "num" in (xt, yt) and {xt, yt} <= {"num", "intlit"} and isinstance(n.op, (ast.Add, ast.Div)):
+            x = x if xt == "num" else f"(intNum {x})"
+            y = y if yt == "num" else f"(intNum {y})"
+            return f"(fl.{'add' if isinstance(n.op, ast.Add) else 'div'} {atom(x)} {atom(y)})", "num"
         if xt in ints and yt in ints:
             if xt == "nat":
                 x = f"({x} : Int)"
@@ -839,6 +847,8 @@ class Fn:
                 self.err(n, f"int() of a {ty}")
             if name == "abs" and len(n.args) == 1:
                 t, ty = self.E(n.args[0], env)
+                if ty == "num" and self.spec.get("float_ops"):
+                    return f"(fl.abs {atom(t)})", "num"
                 if ty == "R":
                     return f"(ar.abs {atom(t)})", "R"
                 self.err(n, f"abs of a {ty}")
@@ -1918,6 +1928,9 @@ class Fn:
         header = []
         if sp.get("poly"):
             header.append("{α : Type}")
+        if sp.get("float_ops"):
+            # double arithmetic whose rounding is not modelled: `+`, `/` and `abs` on doubles are parameters (negation and comparisons are exact)
+            header.append("(fl : Py.FloatOps)")
         if sp.get("rho_type"):
             header.append("{ρ : Type}")
         if sp.get("rho"):
